@@ -35,6 +35,17 @@ CONST_SPECS = [
 ]
 
 
+def write_coqproject():
+    """_CoqProject lists every .v file under coq/ (sorted); Makefile regenerated when the list changes."""
+    files = sorted(os.path.relpath(f, COQ) for f in glob.glob(os.path.join(COQ, "**", "*.v"), recursive=True))
+    txt = "-Q . V\n" + "\n".join(files) + "\n"
+    cp = os.path.join(COQ, "_CoqProject")
+    old = open(cp).read() if os.path.exists(cp) else ""
+    if old != txt or not os.path.exists(os.path.join(COQ, "Makefile")):
+        open(cp, "w").write(txt)
+        sh("coq_makefile -f _CoqProject -o Makefile", cwd=COQ, check=True)
+
+
 def sh(cmd, cwd=None, env=None, timeout=None, check=False):
     p = subprocess.run(cmd, cwd=cwd, env=env, timeout=timeout, stdout=subprocess.PIPE,
                        stderr=subprocess.STDOUT, text=True, shell=isinstance(cmd, str))
@@ -90,9 +101,7 @@ class Check:
 
     def prove(self):
         """returns (obligations, discharged, assumptions text, error or None)"""
-        if not os.path.exists(os.path.join(COQ, "Makefile")) or \
-           os.path.getmtime(os.path.join(COQ, "Makefile")) < os.path.getmtime(os.path.join(COQ, "_CoqProject")):
-            sh("coq_makefile -f _CoqProject -o Makefile", cwd=COQ, check=True)
+        write_coqproject()
         prop_v = os.path.join(COQ, "Properties", self.pid + ".v")
         src = open(prop_v).read()
         names = re.findall(r"^\s*Theorem\s+(\w+)", src, flags=re.M)
@@ -131,20 +140,23 @@ class Check:
 
     def build_harness(self):
         tags = "verif"
-        rc, out = sh(["go", "build", "-tags", tags, "-o", os.path.join(BIN, "vh"), "./cmd/vh"],
+        rc, out = sh(["go", "build", "-tags", tags, "-o", os.path.join(BIN, "vh-" + self.pid), "./%s/cmd" % self.pid.lower()],
                      cwd=os.path.join(VERIF, "harness"), env=GOENV, timeout=1800)
         if rc != 0:
             return "harness does not build against /repo's working tree:\n" + out[-3000:]
         return None
 
     # ---------- correspondence ----------
-    def tie(self, n, seed, sub):
+    def tie(self, n, seed, sub, replay_file=None):
         d = os.path.join(self.rundir, sub)
         shutil.rmtree(d, ignore_errors=True)
         os.makedirs(d)
         env = dict(GOENV, VERIF_TIER=self.tier)
-        rc, out = sh([os.path.join(BIN, "vh"), self.pid, "gen", "-seed", str(seed), "-n", str(n), "-out", d],
-                     env=env, timeout=self.cfg.get("gen_timeout", 1500))
+        if replay_file:
+            cmd = [os.path.join(BIN, "vh-" + self.pid), "replay", "-case", replay_file, "-out", d]
+        else:
+            cmd = [os.path.join(BIN, "vh-" + self.pid), "gen", "-seed", str(seed), "-n", str(n), "-out", d]
+        rc, out = sh(cmd, env=env, timeout=self.cfg.get("gen_timeout", 1500))
         if rc != 0:
             return None, "harness run failed (rc=%d): %s" % (rc, out[-3000:])
         shards = sorted(glob.glob(os.path.join(d, "cases_*.v")))
@@ -254,8 +266,10 @@ def standard_check(cfg, tier, seed, classify, replay_file=None):
         if not herr:
             n = cfg["n_quick"] if tier == "quick" else cfg["n_thorough"]
             seeds = [seed] if tier == "quick" else [seed + k for k in range(cfg.get("thorough_seeds", 3))]
+            if replay_file:
+                seeds = [seed]
             for k, s in enumerate(seeds):
-                res, err = c.tie(n, s, "tie%d" % k)
+                res, err = c.tie(n, s, "tie%d" % k, replay_file)
                 if err:
                     herr = err
                     break
